@@ -478,6 +478,12 @@ H("conn_second_reason_native", ["C08"], "replay-only", "connection::second_reaso
   [("x", "u8")], 4, [], ["Connection::handle_event", "Connection::handle_packet", "Connection::poll"], "native replay body of E2 slice query e2_handle_packet_error_block_slice; demonstration for finding 21")
 H("conn_lost_probe_other_space_native", ["C12", "C13"], "replay-only", "connection::lost_probe_other_space_native",
   [("x", "u8")], 4, [], ["Connection::detect_lost_packets", "MtuDiscovery::poll_transmit"], "native replay body for the probe clause of e2_detect_lost_iteration_slice; demonstration for finding 23")
+H("conn_close_repeated_native", ["C08"], "replay-only", "connection::close_repeated_native",
+  [("x", "u8")], 4, [], ["Connection::close", "Connection::handle_event", "Connection::poll_transmit"], "native replay body of E2 slice query e2_handle_packet_tail_repeats_close")
+H("conn_discard_space_native", ["C12"], "replay-only", "connection::discard_space_native",
+  [("x", "u8")], 4, [], ["Connection::discard_space", "Connection::remove_in_flight"], "native replay body of E2 query e2_discard_space_iteration")
+H("streams_open_limit_native", ["C05"], "replay-only", "connection::streams::open_limit_native",
+  [("limit", "u8")], 4, [], ["Streams::open"], "native replay body of E2 query e2_streams_open_limit")
 H("conn_path_response_native", ["C15", "C07"], "replay-only", "connection::path_response_native",
   [("mode", "u8")], 4, [], ["Connection::handle_event", "Connection::process_payload"], "native replay body of E2 slice query e2_path_response_slice")
 H("conn_detect_lost_native", ["C12"], "replay-only", "connection::detect_lost_native",
